@@ -107,6 +107,7 @@ def _glexindex(start, stop, cross_truncation=1.0):
     else:
         lower = cross_truncate(indices, start - 1, cross_truncation[0])
         upper = cross_truncate(indices, stop - 1, cross_truncation[1])
-        indices = indices[lower ^ upper]
+        # inside the upper bound, but not inside the lower one
+        indices = indices[upper & ~lower]
 
     return numpy.array(indices, dtype=int).reshape(-1, dimensions)
